@@ -350,23 +350,46 @@ Print Assumptions C16_self_token_sound.
 
 (** * One-time passcodes *)
 
+(** [short_history]: fewer than 2^63 events, so that the 64-bit attempt counter
+    has not wrapped (see [C16_passcode_counter_and_window_edge_cases]). *)
 Theorem C16_passcode_once_window_limit : forall expiry ops claim id t,
   let '(s, evs) := exec expiry init_state [] ops in
+  short_history evs ->
   snd (step expiry s (PTry claim id t)) = 0%N -> accept_ok expiry evs claim t.
 Proof. exact passcode_once_window_limit. Qed.
 Print Assumptions C16_passcode_once_window_limit.
 
 Theorem C16_passcode_reachable_accept : forall expiry s evs claim id t,
-  reach expiry s evs -> snd (step expiry s (PTry claim id t)) = 0%N -> accept_ok expiry evs claim t.
+  reach expiry s evs -> short_history evs ->
+  snd (step expiry s (PTry claim id t)) = 0%N -> accept_ok expiry evs claim t.
 Proof. exact accepted_only_when_ok. Qed.
 Print Assumptions C16_passcode_reachable_accept.
 
 Theorem C16_passcode_rejected_after_ten_wrong : forall expiry s evs claim id t ti after,
-  reach expiry s evs -> since_issue evs = Some (ti, after) ->
+  reach expiry s evs -> short_history evs -> since_issue evs = Some (ti, after) ->
   10 < Z.of_nat (List.length (filter counted after)) ->
   snd (step expiry s (PTry claim id t)) <> 0%N.
 Proof. exact rejected_after_ten_wrong. Qed.
 Print Assumptions C16_passcode_rejected_after_ten_wrong.
+
+(** Concurrent callers: each operation is one KV Mutate, atomic by C06, so a
+    concurrent execution is an interleaving ([merge]) of the callers' operations;
+    the limit, the window and the single use hold for every interleaving (in
+    particular for a re-issue racing with attempts). *)
+Theorem C16_passcode_concurrent_callers : forall expiry (a b ops : list pop) claim id t,
+  merge a b ops ->
+  let '(s, evs) := exec expiry init_state [] ops in
+  short_history evs ->
+  snd (step expiry s (PTry claim id t)) = 0%N -> accept_ok expiry evs claim t.
+Proof. exact concurrent_callers_atomic. Qed.
+Print Assumptions C16_passcode_concurrent_callers.
+
+(** A stored record that lacks its window (the code's nil Valid / Expire) never
+    lets an attempt through. *)
+Theorem C16_passcode_missing_window_never_accepted : forall claim c t,
+  p_has_valid c = false \/ p_has_expire c = false -> checkPassCode claim (Some c) t <> 0%N.
+Proof. exact missing_window_never_accepted. Qed.
+Print Assumptions C16_passcode_missing_window_never_accepted.
 
 (** What the correspondence runs ([run]) observes is the history the theorems speak about. *)
 Theorem C16_passcode_run_is_exec : forall expiry ops s evs,
@@ -493,6 +516,23 @@ Example C16_passcode_witness :
   snd (step 1000 (fst witness_run) (PTry 2 5 1101)) = 7%N /\
   snd (step 1000 (fst (step 1000 (fst witness_run) (PTry 2 5 1100))) (PTry 2 6 1100)) = 5%N.
 Proof. exact accept_ok_witness. Qed.
+
+(** The dependency on atomic Mutate, the wrapping counter and the missing window, concretely. *)
+Example C16_passcode_needs_atomic_mutate :
+  let s := fst (step 1000 init_state (PNew 0)) in
+  fst (racy_two_attempts 1000 s (PTry 1 7 5) (PTry 1 8 5)) = (0%N, 0%N) /\
+  snd (step 1000 (fst (step 1000 s (PTry 1 7 5))) (PTry 1 8 5)) = 5%N.
+Proof. exact without_atomic_mutate_a_code_is_used_twice. Qed.
+
+Example C16_passcode_counter_and_window_edge_cases :
+  let s := mkR false (Some (mkPC 1 true 0 true 100 false (two63 - 1))) None 1 in
+  snd (step 1000 s (PTry 1 7 5)) = 0%N /\
+  snd (step 1000 (mkR false (Some (mkPC 1 true 0 true 100 false 11)) None 1) (PTry 1 7 5)) = 4%N /\
+  snd (step 1000 (mkR false (Some (mkPC 1 false 0 true 100 false 0)) None 1) (PTry 1 7 5)) = 9%N.
+Proof. exact counter_wraps_at_two63. Qed.
+
+Example C16_passcode_short_history_satisfiable : short_history (snd witness_run).
+Proof. vm_compute. reflexivity. Qed.
 
 Example C16_passcode_legacy_refuted :
   last (map fst (run_with false 600000000000 init_state fifteen_wrong_then_right)) 9%N = 0%N /\
